@@ -116,7 +116,7 @@ def blackbox(v, wd, inputs, rnd, thorough):
 
     def probe_once(tmo):
         """every listener serves a fresh tunnel and the API answers; returns (ok, why)"""
-        for proto in ("http", "socks5", "socks4"):
+        for proto in ("http", "socks5", "socks4", "https"):
             est = False
             why = ""
             try:
@@ -163,7 +163,7 @@ def blackbox(v, wd, inputs, rnd, thorough):
             jobs.append((topo.ports[key], data))
     # garbage of every decoder also goes to every listener kind (a peer may speak the wrong protocol)
     for dec, data in inputs[::7]:
-        for key in (("http", "direct"), ("socks5", "direct")):
+        for key in (("http", "direct"), ("socks5", "direct"), ("https", "direct"), ("sockstls", "direct")):
             jobs.append((topo.ports[key], data))
     rnd.shuffle(jobs)
     if not thorough:
